@@ -361,22 +361,20 @@ impl DiskCache {
             ensures to_remove <= bytes_removed || state.num_items == 0,
             decreases state.num_items,
 //@ before `let items = state.inner.get_mut(&key)`
-                let ghost m0 = state.inner@; let ghost mut m1 = state.inner@;
-                proof { broadcast use axiom_key_model; }
+                let ghost m0 = state.inner@;
+                proof { broadcast use axiom_key_model; broadcast use lemma_borrowed_key_mutated_deref; }
 //@ after `.ok_or(ChunkCacheError::Infallible)?;`
-                let ghost v0 = *items;
+                let ghost v0 = *items; let ghost mut v1 = *items;
                 proof { lemma_item_le_bytes(v0@, idx as int); lemma_msum_ge_one(m0, key, true); lemma_msum_ge_one(m0, key, false); }
 //@ after `items.remove(idx);`
-                let ghost v1 = *items;
-//@ before `state.inner.remove(&key);`
-                    proof { m1 = state.inner@; }
+                proof { v1 = *items; }
 //@ before `state.total_bytes -= len;`
                 proof {
-                    if v1@.len() != 0 { m1 = state.inner@; }
-                    lemma_borrowed_key_mutated_deref(m0, m1, &key, v0, v1);
+                    // the map is now m0 with `key` bound to the shortened list, or that binding removed
+                    let mi = m0.insert(key, v1);
                     lemma_msum_insert(m0, key, v1, true); lemma_msum_insert(m0, key, v1, false);
                     lemma_bytes_remove(v0@, idx as int);
-                    if v1@.len() == 0 { lemma_msum_remove(m1, key, true); lemma_msum_remove(m1, key, false); }
+                    lemma_msum_remove(mi, key, true); lemma_msum_remove(mi, key, false);
                 }
 //@ before `Ok(paths)`
         proof { if state.num_items == 0 { lemma_no_items_no_bytes(state.inner@); } }
@@ -442,7 +440,7 @@ impl DiskCache {
             lemma_msum_insert(m0, *key, v1, true); lemma_msum_insert(m0, *key, v1, false);
             lemma_bytes_nonneg(v1@);
         }
-//@ before `state.num_items += 1;`
+//@ before `let item_set =`
         let ghost m2 = state.inner@;
 //@ before `Ok((overlapping_item_paths, evicted_paths))`
         let ghost v3 = *item_set;
@@ -468,28 +466,44 @@ impl DiskCache {
             /*@C13*/ inv(*final(state), self.capacity),
             final(state).total_bytes <= old(state).total_bytes,
 //@ body-start
-        let ghost m0 = state.inner@; let ghost mut m1 = state.inner@;
+        let ghost m0 = state.inner@;
         proof {
-            broadcast use axiom_key_model;
-            broadcast use lemma_borrowed_key_mutated_deref;
+            broadcast use axiom_key_model; broadcast use lemma_borrowed_key_mutated_deref;
             assert(m0.contains_key(*key) ==> m0.insert(*key, m0[*key]) =~= m0);
         }
 //@ before `let idx = match index_of(items, cache_item)`
-                let ghost v0 = *items;
+                let ghost v0 = *items; let ghost mut v1 = *items;
 //@ after `items.swap_remove(idx);`
-                let ghost v1 = *items;
-                proof { assert(v1@ =~= swap_removed(v0@, idx as int)); }
-//@ before `state.inner.remove(key);`
-                    proof { m1 = state.inner@; }
+                proof { v1 = *items; }
 //@ before `state.total_bytes -= cache_item.len;`
                 proof {
-                    if v1@.len() != 0 { m1 = state.inner@; }
-                    lemma_borrowed_key_mutated_deref(m0, m1, key, v0, v1);
+                    let mi = m0.insert(*key, v1);
                     lemma_msum_insert(m0, *key, v1, true); lemma_msum_insert(m0, *key, v1, false);
-                    lemma_bytes_swap_remove(v0@, idx as int);
+                    if v1@ =~= swap_removed(v0@, idx as int) { lemma_bytes_swap_remove(v0@, idx as int); }
                     lemma_item_le_bytes(v0@, idx as int); lemma_msum_ge_one(m0, *key, true); lemma_msum_ge_one(m0, *key, false);
-                    if v1@.len() == 0 { lemma_msum_remove(m1, *key, true); lemma_msum_remove(m1, *key, false); }
+                    lemma_msum_remove(mi, *key, true); lemma_msum_remove(mi, *key, false);
                 }
+//@ end
+
+//@ extract chunk_cache/src/disk.rs in `impl DiskCache` region initialize_state
+//@ from `total_bytes += cache_item.len;`
+//@ to `items.push(VerificationCell::new_unverified(cache_item));`
+//@ sig `fn init_count_step(mut total_bytes: u64, mut num_items: usize, mut items: Vec<CacheItem>, cache_item: CacheItem, capacity: u64, max_num_bytes: u64) -> (r: (u64, usize, Vec<CacheItem>))`
+//@ epilogue `(total_bytes, num_items, items)`
+//@ contract
+        requires
+            cap_ok(capacity), max_num_bytes == 2 * capacity,
+            total_bytes < max_num_bytes,          // the scan returns as soon as total_bytes >= max_num_bytes
+            cache_item.len <= capacity,           // try_parse_cache_file drops files longer than the capacity
+            num_items < usize::MAX,
+        ensures
+            // counters and the pending list advance in lock step
+            /*@C13*/ r.2@ == items@.push(cache_item),
+            /*@C13*/ r.1 - num_items == r.2@.len() - items@.len(),
+            /*@C13*/ r.0 - total_bytes == items_bytes(r.2@) - items_bytes(items@),
+            r.0 <= 3 * capacity,
+//@ body-start
+        proof { lemma_bytes_push(items@, cache_item); }
 //@ end
 
 } // impl DiskCache
